@@ -10,7 +10,7 @@ prior = ""
 if rnd != "1":
     import glob
     sums = []
-    for f in sorted(glob.glob(f"/verif/neutral/{pid}/*/meta.json") + glob.glob(f"/verif/neutral/round2/{pid}/*/meta.json")):
+    for f in sorted(glob.glob(f"/verif/neutral/{pid}/*/meta.json") + glob.glob(f"/verif/neutral/round2/{pid}/*/meta.json") + glob.glob(f"/verif/neutral/round3/{pid}/*/meta.json")):
         try:
             sums.append(json.load(open(f)).get("summary", ""))
         except Exception:
